@@ -123,6 +123,21 @@ func (s *Sequencer) GetNextBatch(ctx context.Context, req coresequencer.GetNextB
 		maxBytes = req.MaxBytes
 	}
 
+	// Validate the request before anything is taken out of the persistent
+	// queue: an error return after the pop below would drop the popped
+	// transactions for good.
+	var (
+		lastBatchScanned uint64
+		haveLastBatch    bool
+	)
+	if len(req.LastBatchData) > 0 {
+		scanned, err := s.lastDAHeight(req.LastBatchData)
+		if err != nil {
+			return nil, fmt.Errorf("failed to get last DA height: %w", err)
+		}
+		lastBatchScanned, haveLastBatch = scanned, true
+	}
+
 	// Fetch all pending transactions from the queue from the last DA height pull
 	// if enough transactions are available, return the next batch
 	// otherwise, try to fetch more transactions from DA using the next DA height
@@ -150,15 +165,9 @@ func (s *Sequencer) GetNextBatch(ctx context.Context, req coresequencer.GetNextB
 	}
 	nextDAHeight := lastDAHeight
 
-	if len(req.LastBatchData) > 0 {
-		scanned, err := s.lastDAHeight(req.LastBatchData)
-		if err != nil {
-			return nil, fmt.Errorf("failed to get last DA height: %w", err)
-		}
-		if scanned > lastDAHeight {
-			lastDAHeight = scanned
-			nextDAHeight = lastDAHeight + 1
-		}
+	if haveLastBatch && lastBatchScanned > lastDAHeight {
+		lastDAHeight = lastBatchScanned
+		nextDAHeight = lastDAHeight + 1
 	}
 OuterLoop:
 	for size < maxBytes {
